@@ -26,24 +26,16 @@ theorem emptyVar_false_iff (s : State) (v : Nat) :
     | none => simp [hR]
     | some R => simp [hR]
 
-theorem deleteCheck_none {s : State} {d : Nat} (h : deleteCheck s d = none) :
-    ownKind s d = true → ownedBy s d = false := by
-  unfold deleteCheck at h
-  intro hk
-  cases ho : ownedBy s d with
-  | false => rfl
-  | true => simp [hk, ho] at h
-
 /-- a change of `blocked_` is invisible to the tests -/
 theorem tests_modSlot_blocked (s : State) (d : Nat) (b : Bool) (v : Nat) :
     let s0 := s.modSlot d fun D => { D with blocked := b }
-    ownKind s0 v = ownKind s v ∧ hasParent s0 v = hasParent s v ∧
+    hasParent s0 v = hasParent s v ∧
     emptyVar s0 v = emptyVar s v ∧ ownedBy s0 v = ownedBy s v ∧ (s0.slots v).isSome = (s.slots v).isSome := by
   intro s0
   have hrep : ∀ w, repOf s0 w = repOf s w := fun w => repOf_modSlot_blocked s d b w
   have hreps : s0.reps = s.reps := reps_modSlot _ _ _
   have hobj : repObj s0 v = repObj s v := by unfold repObj; rw [hrep, hreps]
-  refine ⟨by unfold ownKind; rw [hobj], by unfold hasParent; rw [hobj],
+  refine ⟨by unfold hasParent; rw [hobj],
     by unfold emptyVar; rw [hobj], ?_, ?_⟩
   · unfold ownedBy anyRep; rw [hreps, nextRep_modSlot]
   · rw [slots_modSlot]; by_cases h : v = d <;> simp [h]
